@@ -243,9 +243,13 @@ def check_case(ctx: runner.Ctx, case):  # noqa: C901, PLR0912
 
 def explore(ctx: runner.Ctx):
     # the list-layout table of C04 (root containers of every wrong shape) through this property's differential oracle
-    from props.c04_only_loaderror import extra_field_table_cases, list_layout_table_cases  # noqa: PLC0415
+    from props.c04_only_loaderror import (  # noqa: PLC0415
+        extra_field_table_cases,
+        list_layout_table_cases,
+        unhashable_element_table_cases,
+    )
     seen, n_ll = set(), 0
-    for c in itertools.chain(list_layout_table_cases(), extra_field_table_cases()):
+    for c in itertools.chain(list_layout_table_cases(), extra_field_table_cases(), unhashable_element_table_cases()):
         key = (tspec.key_of(c["t"]), repr(c["datum"]), c["strict"])
         if key in seen:   # the table repeats each (type, datum, strict) per debug mode; all three modes are compared here anyway
             continue
@@ -255,7 +259,7 @@ def explore(ctx: runner.Ctx):
             runner.guarded(ctx, lambda k: check_case(ctx, k),
                            {"dir": "load", "t": c["t"], "datum": c["datum"], "ops": c["ops"], "strict": c["strict"], "provs": [],
                             "layouts": c["layouts"]})
-    ctx.mark_exhaustive(f"list-layout and extra-field tables of C04: {n_ll} (type, datum, strict) triples compared across the "
+    ctx.mark_exhaustive(f"list-layout, extra-field and unhashable-element tables of C04: {n_ll} (type, datum, strict) triples compared across the "
                         f"three debug modes")
     ctx.given(st_case(), lambda c: check_case(ctx, c), ctx.budget(8000, 300000))
 
